@@ -1,12 +1,10 @@
-// unit int_memsize_gcd_ops (NOT REGISTERED: it FAILS on the unchanged tree, that is the genuine defect proposed_fixes/MEM1):
-// gcd/lehmer.rs memory_requirement_up_to, gcd/mod.rs memory_requirement_exact + gcd_in_place, gcd_ops.rs gcd_large under
-// the FUNCTIONAL + RESOURCE contract: the Layout computed provides gneed(rhs_len / 2) Words, which is what the kernel
-// gcd_in_place needs (PROVED in int_memsize_gcd; //@@ SIG here).  The annotated copy of lehmer::memory_requirement_up_to is
-// written for the REPAIRED body (max with mul::memory_requirement_up_to(rhs_len, rhs_len / 2)): verified with
-// `python3 -m engine.dev int_memsize_gcd_ops.rs --repo <tree with proposed_fixes/MEM1/patch.diff applied>`; on the unchanged
-// tree the engine transplants the contract onto `div::memory_requirement_exact(lhs_len, rhs_len)` and the proof fails
-// (lay_ok(ret, gneed(rhs_len / 2)) does not follow from div_need(lhs_len, rhs_len)).  Register under C12 / C16 once the
-// repair is in /repo.
+// unit int_memsize_gcd_ops: gcd/lehmer.rs memory_requirement_up_to, gcd/mod.rs memory_requirement_exact + gcd_in_place,
+// gcd_ops.rs gcd_large under the FUNCTIONAL + RESOURCE contract (C12, C16): the Layout computed provides gneed(rhs_len / 2)
+// Words, which is what the kernel gcd_in_place needs for every Euclidean step (PROVED in int_memsize_gcd; //@@ SIG here), so
+// UBig::gcd on two large operands never panics with "internal error: not enough memory allocated".
+// (Until the repair 1d55bba of lehmer::memory_requirement_up_to this unit FAILED: the old body div::memory_requirement_exact(
+// lhs_len, rhs_len) reserved the scratch of the first division only -- the genuine defect found while writing this contract.)
+// Trusted: as int_gcd_ops (lib/mem_gcd_stubs.rs = lib/gcdo_ops_stubs.rs without its opaque Memory) + lib/mem_model.rs.
 #![allow(unused_imports, unused_variables, dead_code, non_snake_case, unused_mut, unused_parens, unused_braces)]
 use vstd::prelude::*;
 use core::cmp::Ordering;
@@ -32,6 +30,8 @@ use super::*;
 }
 pub mod div {
 use super::*;
+// (not called by the repaired code; kept so that the pre-repair body `div::memory_requirement_exact(lhs_len, rhs_len)` is
+// judged by the contract instead of being rejected by the compiler)
 //@@ SIG integer/memsize/div_req.rs
 }
 pub mod gcd {
